@@ -226,14 +226,16 @@ Fixpoint powmod_pos (a : list Z) (md : option (list Z)) (n : positive) : res (li
   | xI n' => bind (powmod_pos a md n')
                (fun b => bind (omod (sq b) md) (fun b => omod (mul b a) md))
   end.
+(** n == 0: 1 (whatever the modulus; the package's convention).  Otherwise (negative n: invert first)
+    b = a = _mod(a, modulus), then square-and-multiply (repaired _powmod, commit a226feb). *)
 Definition powmod (a : list Z) (n : Z) (md : option (list Z)) : res (list Z) :=
   if n =? 0 then Ok (from_int 1)
   else if n <? 0 then
     match md with
     | None => ValueErr
-    | Some b => bind (invert a b) (fun a' => powmod_pos a' md (Z.to_pos (- n)))
+    | Some b => bind (invert a b) (fun a' => bind (omod a' md) (fun ar => powmod_pos ar md (Z.to_pos (- n))))
     end
-  else powmod_pos a md (Z.to_pos n).
+  else bind (omod a md) (fun ar => powmod_pos ar md (Z.to_pos n)).
 
 (** _lt: shorter is smaller; equal lengths: compare from the leading coefficient down *)
 Fixpoint lt_hi (a b : list Z) : bool :=
@@ -1475,3 +1477,39 @@ Proof.
   destruct (gcdext_loop p (S (length b)) a b [1] [] [] [1]) as [[[g0 s0] t0]|]; [|congruence].
   destruct (monic_pinv p g0) as [g' a1]. destruct (a1 >=? 2); eauto.
 Qed.
+
+(** powmod with exponent n >= 1 and a nonzero modulus returns a reduced normal form *)
+Lemma pmod_reduced p x b r : prime p -> wf p x -> wf p b -> b <> [] -> pmod p x b = Ok r ->
+  wf p r /\ (length r < length b)%nat.
+Proof.
+  intros Pp Wx Wb Hn H. unfold pmod in H. destruct b as [|y b'] eqn:Eb; [congruence|]. rewrite <- Eb in *.
+  inversion H as [H']. rewrite mod_nz_eq.
+  destruct (divmod_nz_spec p x b Pp Wx Wb Hn) as (_ & Wr & Ll & _). split; assumption.
+Qed.
+Lemma sq_wf p a : prime p -> wf p a -> wf p (sq p a).
+Proof. intros Pp Wa. pose proof (prime_gt1 p Pp). rewrite sq_eq_mul by lia. apply mul_wf; assumption. Qed.
+Lemma powmod_pos_reduced p a b : prime p -> wf p a -> wf p b -> b <> [] -> (length a < length b)%nat ->
+  forall n r, powmod_pos p a (Some b) n = Ok r -> wf p r /\ (length r < length b)%nat.
+Proof.
+  intros Pp Wa Wb Hn La. induction n as [n IH|n IH|]; intros r H; cbn [powmod_pos] in H.
+  - destruct (powmod_pos p a (Some b) n) as [x| | |]; cbn [bind] in H; try discriminate.
+    destruct (IH x eq_refl) as [Wx _]. unfold omod in H.
+    destruct (pmod p (sq p x) b) as [y| | |] eqn:E1; cbn [bind] in H; try discriminate.
+    destruct (pmod_reduced p _ b y Pp (sq_wf p x Pp Wx) Wb Hn E1) as [Wy _].
+    apply (pmod_reduced p (mul p y a) b r Pp); auto. apply mul_wf; assumption.
+  - destruct (powmod_pos p a (Some b) n) as [x| | |]; cbn [bind] in H; try discriminate.
+    destruct (IH x eq_refl) as [Wx _]. unfold omod in H.
+    apply (pmod_reduced p (sq p x) b r Pp); auto. apply sq_wf; assumption.
+  - inversion H; subst. split; assumption.
+Qed.
+Theorem powmod_reduced p a n b r : prime p -> wf p a -> wf p b -> b <> [] -> 1 <= n ->
+  powmod p a n (Some b) = Ok r -> wf p r /\ (length r < length b)%nat.
+Proof.
+  intros Pp Wa Wb Hn H1 H. unfold powmod in H.
+  destruct (Z.eqb_spec n 0); [lia|]. destruct (Z.ltb_spec n 0); [lia|].
+  unfold omod in H. destruct (pmod p a b) as [ar| | |] eqn:E; cbn [bind] in H; try discriminate.
+  destruct (pmod_reduced p a b ar Pp Wa Wb Hn E) as [War Lar].
+  apply (powmod_pos_reduced p ar b Pp War Wb Hn Lar _ _ H).
+Qed.
+Theorem powmod_zero_modulus p a n : 1 <= n -> powmod p a n (Some []) = ZeroDiv.
+Proof. intros H. unfold powmod. destruct (Z.eqb_spec n 0); [lia|]. destruct (Z.ltb_spec n 0); [lia|]. reflexivity. Qed.
